@@ -148,6 +148,8 @@ impl Scenario for C17 {
             spec.ops = gen_output_ops(rng, kind, 8).into_iter().map(|o| if let Op::Fill(n) = o { Op::Fill(n % 41) } else { o }).collect();
             spec.clock = Some(gen_plain_clock(rng, 400));
             spec.clock2 = Some(gen_plain_clock(rng, 400));
+            // the process's logging configuration (Trace enabled) must not open the text either
+            spec.logger = rng.chance(1, 4);
             // one of the twins sometimes collects a crafted value (zero half / zero): "is the pool
             // still empty" style diagnostics collide with such values
             if rng.chance(1, 6) {
